@@ -5,6 +5,7 @@ import multiprocessing as mp
 import os
 import sys
 import time
+import pickle
 import traceback
 
 import build
@@ -34,6 +35,8 @@ def run_entry(text, entry, judge=None, opts=None, extra_modules=(), guide=None):
         ex.tape = opts['tape']
     ex.solver.cross_budget = opts.get('crosscheck', 3)
     ex.max_wall = opts.get('max_wall', 0)
+    if opts.get('max_rss_mb'):
+        ex.max_rss_mb = opts['max_rss_mb']
     ex.limit_is_hang = opts.get('limit_is_hang', False)
     ex.preempt_bound = opts.get('preempt_bound', 0)
     ex.preempt_range = opts.get('preempt_range')
@@ -130,13 +133,76 @@ def _call(i):
 
 
 def pmap(fn, arglist, jobs=None):
-    """run fn(*args) for each args in forked workers (parsed repo modules are inherited)"""
+    """run fn(*args) for each args, one forked process per task (parsed repo modules are inherited copy-on-write).
+    A worker that dies (out of memory, crash inside a native library) yields an error result for its task instead of
+    hanging the pool."""
     global _TASK
     jobs = jobs or min(16, os.cpu_count() or 4)
     build.repo_modules()
     if jobs <= 1 or len(arglist) <= 1:
         return [fn(*a) for a in arglist]
     _TASK = (fn, arglist)
-    ctx = mp.get_context('fork')
-    with ctx.Pool(jobs) as pool:
-        return pool.map(_call, range(len(arglist)), chunksize=1)
+    results = [None] * len(arglist)
+    running = {}                       # pid -> (index, read fd)
+    nxt = 0
+    sys.stdout.flush()
+    sys.stderr.flush()
+
+    import select
+    while nxt < len(arglist) or running:
+        while nxt < len(arglist) and len(running) < jobs:
+            rfd, wfd = os.pipe()
+            pid = os.fork()
+            if pid == 0:
+                code = 0
+                try:
+                    os.close(rfd)
+                    for _, (_, ofd) in running.items():
+                        try:
+                            os.close(ofd)
+                        except OSError:
+                            pass
+                    data = pickle.dumps(_call(nxt), protocol=pickle.HIGHEST_PROTOCOL)
+                    off = 0
+                    while off < len(data):
+                        off += os.write(wfd, data[off:off + (1 << 20)])
+                    os.close(wfd)
+                except BaseException:
+                    code = 3
+                    try:
+                        traceback.print_exc()
+                    except Exception:
+                        pass
+                finally:
+                    sys.stdout.flush()
+                    sys.stderr.flush()
+                    os._exit(code)
+            os.close(wfd)
+            running[pid] = (nxt, rfd)
+            nxt += 1
+        # drain pipes of children that have produced output (a result larger than the pipe buffer would block the child)
+        fds = {rfd: pid for pid, (i, rfd) in running.items()}
+        ready, _, _ = select.select(list(fds), [], [], 0.5)
+        for rfd in ready:
+            pid = fds[rfd]
+            i = running[pid][0]
+            buf = _PARTIAL.setdefault(pid, [])
+            b = os.read(rfd, 1 << 20)
+            if b:
+                buf.append(b)
+                continue
+            # EOF: the child closed its end (finished or died)
+            _, status = os.waitpid(pid, 0)
+            running.pop(pid)
+            os.close(rfd)
+            data = b''.join(_PARTIAL.pop(pid, []))
+            try:
+                results[i] = pickle.loads(data)
+            except Exception:
+                how = 'killed by signal %d' % os.WTERMSIG(status) if os.WIFSIGNALED(status) else 'exit status %d' % os.WEXITSTATUS(status)
+                results[i] = dict(status='error', error='worker process died (%s; out of memory?) before reporting a result' % how,
+                                  task=repr(arglist[i])[:200])
+    return results
+
+
+_PARTIAL = {}
